@@ -372,7 +372,8 @@ NAME_FIELD_HANDLERS = {'variable_name': ('accept_DeleteNode',)}
 
 
 def _self_normaliser(tree, fname):
-    """does the file resolve instance names through a find_symbol that maps every spelling of `self` to the instance?
+    """does the file treat all spellings of `self` alike?  Either it never mentions the word (no special case at
+    all), or it resolves instance names through a find_symbol that maps every spelling of `self` to the instance:
     prebuild.py: ActionPrebuilder.find_symbol starts with  if name.lower() == 'self': name = 'self'
     interpret.py: InstanceSymbolTable.find_symbol has      if name.lower() == 'self': return self.instance
                   and the walkers of instance-based actions install an InstanceSymbolTable"""
@@ -384,6 +385,9 @@ def _self_normaliser(tree, fname):
             if isinstance(st, (ast.Assign, ast.Return)) and 'find_symbol' in ast.unparse(st):
                 return False            # the table is consulted before the spelling is normalised
         return False
+    if not any(isinstance(n, ast.Constant) and isinstance(n.value, str) and n.value.lower() == 'self'
+               for n in ast.walk(tree)):
+        return True                     # the file never treats the word `self` specially: every spelling is just a name
     classes = {c.name: c for c in tree.body if isinstance(c, ast.ClassDef)}
 
     def method(cls, name):
